@@ -23,7 +23,7 @@ from dsim import refmodel as R
 ID = 'C13'
 LEVEL = 'exploration'
 CLASSES = [('stats', 1)]
-TIERS = {'quick': {'runs': 3000, 'chunk': 50}}
+TIERS = {'quick': {'chunk': 50}}
 DIFF_ENCS = [None, None, 'utf-8', 'latin-1', 'utf-16', 'utf-16-le',
              'utf-32-be', 'cp037', 'utf-32', 'shift_jis']
 RULE = ('seeded trees (1-3 changes x 1-3 files) whose diffs are assembled '
